@@ -37,7 +37,7 @@ def run_script(script):
                        stdout=subprocess.PIPE, stderr=subprocess.PIPE, timeout=180)
     for line in p.stdout.decode('utf-8', 'replace').split('\n'):
         if line.startswith('RESULT '):
-            return json.loads(line[7:])
+            return json.JSONDecoder().raw_decode(line[7:])[0]
     raise tlc.MachineryError('end-to-end run produced no result: %s' % p.stderr.decode('utf-8', 'replace')[-600:])
 
 
@@ -110,7 +110,7 @@ def two_lives_leg(c, same_object=False, register=True, service_empty=False):
     res = None
     for line in p.stdout.decode('utf-8', 'replace').split('\n'):
         if line.startswith('RESULT '):
-            res = json.loads(line[7:])
+            res = json.JSONDecoder().raw_decode(line[7:])[0]
     if res is None:
         raise tlc.MachineryError('two-lives run produced no result: %s' % p.stderr.decode('utf-8', 'replace')[-600:])
     trace = res['events']
